@@ -9,8 +9,10 @@ import (
 	"os"
 	"os/exec"
 	"path/filepath"
+	"reflect"
 	"strconv"
 	"strings"
+	"sync/atomic"
 	"syscall"
 	"testing"
 	"time"
@@ -57,6 +59,16 @@ func init() {
 		cfg.TelemetryDir = d
 	}
 	cfg.UploadStartTime = time.Date(2024, 5, 5, 12, 0, 0, 0, time.UTC)
+	switch os.Getenv("VERIF_START_UPLOADTIME") {
+	case "future":
+		// (the documented way of simulating a later upload; the token's age is a
+		// matter of the real clock all the same)
+		cfg.UploadStartTime = time.Now().Add(72 * time.Hour)
+	case "now":
+		cfg.UploadStartTime = time.Now()
+	case "zero":
+		cfg.UploadStartTime = time.Time{}
+	}
 	res := Start(cfg)
 	_ = res
 	os.Exit(0)
@@ -241,7 +253,7 @@ func (e *c16env) runRow(res *verifrt.Result, idx int, row c16row) {
 		flags = append(flags, "upload")
 	}
 	env = append(env, "XDG_CONFIG_HOME="+xdg, "HOME="+work, "PATH="+e.bindir+":"+os.Getenv("PATH"), "VERIF_START_APP=1", "VERIF_START_LOG="+logPath,
-		"VERIF_START_CFG="+strings.Join(flags, ","), "VERIF_START_URL=http://127.0.0.1:1/upload", "VERIF_RUN_ID="+runID, "GOPROXY=off", "GOFLAGS=")
+		"VERIF_START_CFG="+strings.Join(flags, ","), "VERIF_START_URL=http://127.0.0.1:1/upload", "VERIF_RUN_ID="+runID, "GOPROXY=off", "GOFLAGS=", "VERIF_START_UPLOADTIME="+[]string{"fixed-past", "future", "now", "zero"}[idx%4])
 	if row.UseTDir {
 		env = append(env, "VERIF_START_TDIR="+tdir)
 	}
@@ -441,6 +453,26 @@ func c16Zone(at time.Time, before, after int32) *time.Location {
 	return verifrt.ShiftZone(at, before, after)
 }
 
+// c16UploadTime rotates the Config.UploadStartTime the real starters use.
+var c16UploadTimeN atomic.Int64
+
+func c16UploadTime() string {
+	return []string{"fixed-past", "future", "now", "zero", "future"}[c16UploadTimeN.Add(1)%5]
+}
+
+// c16Acquire calls acquireUploadToken through reflection, passing zero values
+// for whatever parameters it has (a refactored signature must not stop the
+// check from compiling).
+func c16Acquire() bool {
+	f := reflect.ValueOf(acquireUploadToken)
+	var args []reflect.Value
+	for i := 0; i < f.Type().NumIn(); i++ {
+		args = append(args, reflect.Zero(f.Type().In(i)))
+	}
+	out := f.Call(args)
+	return len(out) > 0 && out[0].Kind() == reflect.Bool && out[0].Bool()
+}
+
 func TestVerifC16Token(t *testing.T) {
 	const check = "C16.token"
 	res := verifrt.NewResult(check)
@@ -508,7 +540,7 @@ func TestVerifC16Token(t *testing.T) {
 		sc := verifrt.NewSched(rnd)
 		for k := 0; k < nt; k++ {
 			k := k
-			sc.Go(fmt.Sprintf("S%d", k), func() { got[k] = acquireUploadToken() })
+			sc.Go(fmt.Sprintf("S%d", k), func() { got[k] = c16Acquire() })
 		}
 		switch i % 3 {
 		case 0:
@@ -600,7 +632,7 @@ func TestVerifC16Token(t *testing.T) {
 				env = append(env, kv)
 			}
 			cmd.Env = append(env, "XDG_CONFIG_HOME="+filepath.Join(work, "xdg"), "HOME="+work, "PATH="+e.bindir+":"+os.Getenv("PATH"), "VERIF_START_APP=1", "VERIF_START_LOG="+logPath,
-				"VERIF_START_CFG=upload", "VERIF_START_URL=http://127.0.0.1:1/upload", "VERIF_RUN_ID="+runID, "GOPROXY=off", "GOFLAGS=")
+				"VERIF_START_CFG=upload", "VERIF_START_URL=http://127.0.0.1:1/upload", "VERIF_RUN_ID="+runID, "GOPROXY=off", "GOFLAGS=", "VERIF_START_UPLOADTIME="+c16UploadTime())
 			cmd.SysProcAttr = &syscall.SysProcAttr{Setsid: true}
 			cmds = append(cmds, cmd)
 		}
@@ -654,7 +686,7 @@ func TestVerifC16Token(t *testing.T) {
 				env = append(env, kv)
 			}
 			cmd.Env = append(env, "XDG_CONFIG_HOME="+filepath.Join(work, "xdg"), "HOME="+work, "PATH="+e.bindir+":"+os.Getenv("PATH"), "VERIF_START_APP=1", "VERIF_START_LOG="+logPath,
-				"VERIF_START_CFG=upload", "VERIF_START_URL=http://127.0.0.1:1/upload", "VERIF_RUN_ID="+runID, "GOPROXY=off", "GOFLAGS=")
+				"VERIF_START_CFG=upload", "VERIF_START_URL=http://127.0.0.1:1/upload", "VERIF_RUN_ID="+runID, "GOPROXY=off", "GOFLAGS=", "VERIF_START_UPLOADTIME="+c16UploadTime())
 			cmd.SysProcAttr = &syscall.SysProcAttr{Setsid: true}
 			cmd.Run()
 			return waitGone(runID, 20*time.Second)
